@@ -38,3 +38,20 @@ Theorem c04_failed_batch_no_effect : forall st p cs st' e,
   batch_actuate st p cs = (st', Some e) -> st' = st.
 Proof. exact batch_all_or_nothing. Qed.
 Print Assumptions c04_failed_batch_no_effect.
+
+From KD Require Proofs.Store.
+(* 'each unexpired at the time of the request': whatever its scopes (blanket ones included), a token that has expired
+   changes no value, previous value or target of any signal through any update batch ... *)
+Theorem c04_expired_token_changes_nothing : forall us db p now clock changed errs db' changed' errs' id e e',
+  expired p now = true ->
+  apply_updates db p now clock us changed errs = (db', changed', errs') ->
+  lookup_id (entries db) id = Some e -> lookup_id (entries db') id = Some e' -> e' = e.
+Proof. exact Proofs.Store.expired_token_changes_nothing. Qed.
+Print Assumptions c04_expired_token_changes_nothing.
+
+(* ... and registers no signal *)
+Theorem c04_expired_token_registers_nothing : forall db p now clock name dt ct et mn mx al db' r,
+  expired p now = true -> add_entry db p now clock name dt ct et mn mx al = (db', r) -> db' = db.
+Proof. exact Proofs.Store.expired_token_registers_nothing. Qed.
+Print Assumptions c04_expired_token_registers_nothing.
+
